@@ -306,7 +306,7 @@ def main(prop, run, argv=None, level="exploration"):
         print("HARNESS-ERROR property=%s: unexpected exception in the check itself" % prop)
         sys.exit(2)
     if a.replay is None:
-        if ctx.evaluations < 1 or ctx.nontrivial < 2:
+        if (ctx.evaluations < 1 or ctx.nontrivial < 2) and not ctx.violations:
             ctx.write_evidence()
             print("HARNESS-ERROR property=%s: degenerate run (evaluations=%d nontrivial=%d)" %
                   (prop, ctx.evaluations, ctx.nontrivial))
